@@ -86,6 +86,20 @@ pub fn case_eval(ctx: &mut Ctx, case: &Value) {
     ];
     let sc = scale_of(&t);
     let tol = 1e-9 * sc;
+    // "every valid strategy profile": the same profile loaded through the other import function
+    // is the same profile
+    match catch_unwind(AssertUnwindSafe(|| game.from_named_eq(prof.clone()).map(|s| {
+        let i = s.get_info();
+        (i.player_utility(PlayerNum::One), i.player_regret(PlayerNum::One), i.player_regret(PlayerNum::Two))
+    }))) {
+        Ok(Ok((u2, a, b))) => {
+            if !(close_tol(u, u2, tol) && close_tol(r[0], a, tol) && close_tol(r[1], b, tol)) {
+                ctx.fail_prop(case, format!("the profile loaded with from_named evaluates to util {:e} regrets {:e} {:e}, loaded with from_named_eq to util {:e} regrets {:e} {:e}", u, r[0], r[1], u2, a, b));
+            }
+        }
+        Ok(Err(e)) => ctx.fail_prop(case, format!("from_named accepts the profile, from_named_eq rejects it: {:?}", e)),
+        Err(_) => ctx.fail_prop(case, "from_named_eq panicked on a profile from_named accepts".to_string()),
+    }
     // correspondence with the model
     let resp = ctx.model.ask(&req_with_prof("eval", &t, &prof));
     let mut tk = Toks::new(&resp);
